@@ -5,21 +5,22 @@ import vf
 RULE = ("closest_point: TLC (Gen_Closest) enumerates geometry x query point and decides the required answer exactly: "
         "Intersection(p) iff Pos(g,p) is not exterior; else the squared distance (rational) and the SET of points of g at that "
         "distance (rationals; several when p is equidistant from several parts); Indeterminate admissible only if every part of g "
-        "has zero length, required if g is empty. Sources: a 75-entry catalogue on 0..8 of all 10 types (frames, holes touching "
+        "has zero length, required if g is empty. Sources: a 77-entry catalogue on 0..8 of all 10 types (frames, holes touching "
         "the shell / each other, C/L/U/comb/spiral shapes, slivers of doubled area 1, nested and touching multipolygons, mixed and "
-        "nested collections, empty and zero-length members) x all 121 lattice points of -1..9; every Line and Rect on (0..3)^2, "
+        "nested collections, empty and zero-length geometries) x all 121 lattice points of -1..9; every Line and Rect on (0..3)^2, "
         "every Triangle with area and every 3-vertex LineString on (0..2)^2; every simple lattice polygon with 0-2 holes of Gen_Poly "
-        "(read back by TLC) alone and pairwise as MultiPolygon, x the lattice points of a window one unit larger (strided). "
-        "ClosestLaws (admissible points are exactly at the minimal distance, no vertex is nearer) is an invariant. Replay: concrete "
-        "impl, Geometry enum, every representation variant, two exact similarity maps per case; variant must match; "
-        "|dist(p,q)^2 - d2| <= 1e-9 max(1,d2) and q within 1e-9 of an admissible point (both scaled under maps). "
-        "interior_point: the same geometries (plus flat triangles) are executed through the concrete impl, the enum and every "
-        "variant; each distinct answer becomes an event (geometry and point times 2^11 as integers, exactness flag) judged by TLC "
-        "(Trace_Interior, stateless, parallel): None iff empty; never exterior; strictly interior (Pos = I) for every valid "
-        "Polygon/MultiPolygon, Rect/Triangle with area, points, curves with a non-endpoint vertex, collections whose "
-        "top-dimensional members are such; a panic is rejected on valid input. Inexact points are judged via their rounded image "
-        "only when it is >= sqrt(2) lattice units from every segment, else counted undecided. "
-        "distinct_nontrivial = distinct closest cases with the query point outside g + interior events with a point returned.")
+        "(read back by TLC) alone, pairwise as MultiPolygon and inside flat / nested collections with a curve and points; the square "
+        "0..6 with every triangular hole touching the shell in one point; each x the lattice points of a window one unit larger "
+        "(strided by tier and seed). ClosestLaws (admissible points are exactly at the minimal distance, no vertex is nearer) is an "
+        "invariant. Replay: concrete impl, Geometry enum, every representation variant, two exact similarity maps per case; the "
+        "variant of Closest must match; |dist(p,q)^2 - d2| <= 1e-9 max(1,d2) and q within 1e-9 of an admissible point (scaled "
+        "under maps). interior_point: the same geometries (plus flat triangles) are executed through the concrete impl, the enum "
+        "and every variant; each distinct answer becomes an event (geometry and point times 2^11 as integers, exactness flag) "
+        "judged by TLC (Trace_Interior, stateless, parallel): None iff empty; never exterior; strictly interior (Pos = I) for every "
+        "valid Polygon/MultiPolygon, Rect/Triangle with area, points, curves with a non-endpoint vertex, collections whose "
+        "top-dimensional members are such; a panic is rejected on valid input. Points not on the 2^-11 lattice are judged via their "
+        "rounded image only when it is >= sqrt(2) lattice units from every segment, else counted undecided (never rejected). "
+        "distinct_nontrivial = distinct closest cases with the query point outside g + distinct interior events with a point returned.")
 ASSUME = ["integer lattice: catalogue 0..8, enumerated families 0..2 / 0..3 / 0..4; general slopes",
           "closest_point under exact maps: similarity maps of gj::exact_maps() except tr_1e8 (spacing of doubles at 1e8 exceeds the tolerance)",
           "degenerate input only as far as the property names it (empty, zero length): flat Triangles are excluded from closest_point "
